@@ -103,14 +103,15 @@ Merge(backend, proxy, P) == MergeRS(backend, proxy, P, "copy")
 
 ----------------------------------------------------------------------------
 VARIABLES proxy, backend, perms, phase,
+          perms2,             \* what the player holds when the backend sends its tree a second time
           da, db, dr, dk      \* "random" mode: the draws (state variables, so that each is drawn once)
-vars == <<proxy, backend, perms, phase, da, db, dr, dk>>
+vars == <<proxy, backend, perms, perms2, phase, da, db, dr, dk>>
 
 AllTop == UNION {PTop(n, Deep) : n \in TopNames}
 AllRedirect == UNION {PRedirect(n) : n \in TopNames}
 NoNode == PNode("x", "", {})
 
-Init == /\ proxy = {} /\ backend = {} /\ perms = {} /\ phase = "start"
+Init == /\ proxy = {} /\ backend = {} /\ perms = {} /\ perms2 = {} /\ phase = "start"
         /\ da = NoNode /\ db = NoNode /\ dr = NoNode /\ dk = 0
 
 \* "random": draw two commands, a redirecting node and a shape; then build a root with distinct names
@@ -118,22 +119,27 @@ Draw == /\ Mode = "random" /\ phase = "start" /\ phase' = "drawn"
         /\ da' = RandomElement(AllTop) /\ db' = RandomElement(AllTop)
         /\ dr' = RandomElement(AllRedirect) /\ dk' = RandomElement(1..6)
         /\ backend' = RandomElement(BackRoots) /\ perms' = RandomElement(PermSets)
+        /\ perms2' = RandomElement(PermSets)
         /\ UNCHANGED proxy
 Build == /\ Mode = "random" /\ phase = "drawn" /\ phase' = "case"
          /\ LET s1 == {da}
                 s2 == IF dk \in {2, 4, 5, 6} /\ db.name # da.name THEN s1 \cup {db} ELSE s1
                 s3 == IF dk \in {3, 4, 5} /\ dr.name \notin {n.name : n \in s2} THEN s2 \cup {dr} ELSE s2
             IN proxy' = s3
-         /\ UNCHANGED <<backend, perms, da, db, dr, dk>>
+         /\ UNCHANGED <<backend, perms, perms2, da, db, dr, dk>>
 Small == /\ Mode = "small" /\ phase = "start" /\ phase' = "case"
          /\ proxy' \in SmallProxyRoots
          /\ backend' \in SmallBackRoots
          /\ perms' \in PermSets
+         /\ perms2' = {"a", "b"} \ perms'        \* everything held is revoked, everything else granted
          /\ UNCHANGED <<da, db, dr, dk>>
 Next == Draw \/ Build \/ Small
 Spec == Init /\ [][Next]_vars
 
 Result == Merge(backend, proxy, perms)
+\* the backend re-sends its tree after the player's permissions changed to perms2: the merge is a
+\* function of the current permissions only (nothing of the first answer may survive)
+Result2 == Merge(backend, proxy, perms2)
 
 (* The statement, on the reference operator. *)
 RECURSIVE OutPaths(_)
@@ -164,5 +170,5 @@ BackendKept == \A b \in backend :
 NothingElse == \A m \in Result : m.exec \/ \E b \in backend : BOut(b) = m
 
 Emit == (Export /\ phase = "case") =>
-           PrintT(<<"CASE", ToJson([perms |-> perms, proxy |-> proxy, backend |-> backend])>>)
+           PrintT(<<"CASE", ToJson([perms |-> perms, perms2 |-> perms2, proxy |-> proxy, backend |-> backend])>>)
 =============================================================================
